@@ -84,6 +84,19 @@ func runC20(r *RunCtx) error {
 				r.Count("am:"+got+child, true)
 			}
 		}
+		// the client-side split (types.MerkleHelper; the CLI's merkleHelper is a copy of it): model on every path,
+		// and for plain parent/child paths posting with what the client derived must return MerklePath(path)
+		hp, hc := fttypes.MerkleHelper(path)
+		r.Case("fn", fmt.Sprintf("Helper %s %s %s", cStr(path), cStr(hp), cStr(hc)), map[string]interface{}{"fn": "MerkleHelper", "path_hex": hex.EncodeToString([]byte(path)), "parent": hp, "child": hc})
+		r.Count("mh:"+path, k >= 2)
+		if k >= 2 && segs[k-1] != "" && segs[k-2] != "" && !strings.Contains(segs[k-1], "/") && !strings.HasSuffix(segs[k-2], "/") {
+			if fttypes.AddToMerkle(hp, hc) != got {
+				r.Finding("C20/client-split", "AddToMerkle(MerkleHelper(path)) != MerklePath(path): the address a client posts to is not the plain path's address", map[string]interface{}{"path_hex": hex.EncodeToString([]byte(path)), "path": path})
+			}
+			if hp != fttypes.MerklePath(strings.Join(segs[:k-1], "/")) || hc != hexsha(segs[k-1]) {
+				r.Finding("C20/client-split", "MerkleHelper(parent/child) is not (MerklePath(parent), H(child))", map[string]interface{}{"path_hex": hex.EncodeToString([]byte(path)), "path": path})
+			}
+		}
 		// distinct segment sequences -> distinct addresses
 		canon := strings.TrimSuffix(path, "/")
 		if prev, ok := seen[got]; ok && prev != canon {
